@@ -8,7 +8,7 @@
      cfg_ok c             fragment_num >= 1, delete_threshold >= 0, 0 <= fragment_duration_ms <= 2^35 *)
 From Coq Require Import ZArith Bool List Lia.
 From Lal Require Import Common.LBytes Hls.HlsFloat Hls.HlsFs Hls.HlsPlaylist Hls.HlsMuxer Hls.HlsConsistent
-  Hls.HlsInv Hls.HlsRunProofs Hls.HlsTraceProofs Hls.HlsFinalProofs Hls.HlsLossProofs.
+  Hls.HlsInv Hls.HlsRunProofs Hls.HlsTraceProofs Hls.HlsFinalProofs Hls.HlsLossProofs Hls.HlsRecordProofs.
 Open Scope Z_scope.
 
 (* At EVERY prefix of the operation sequence: the live playlist, if present, is a complete playlist (the text
@@ -68,6 +68,17 @@ Theorem c10_final_live : forall c evs,
   cfg_ok c -> wf_evs c Clean (evs ++ [EvDispose]) -> ended c (apply_all [] (run c (evs ++ [EvDispose]))).
 Proof. exact final_live_ended. Qed.
 Print Assumptions c10_final_live.
+
+(* ... and, unless cleanup is immediate (cleanup_mode 0 or 1), the record playlist is a complete playlist with the end
+   marker that lists, in order, every segment created since the directory was last removed. *)
+Theorem c10_final_record : forall c evs,
+  cfg_ok c -> mode01 c -> wf_evs c Clean (evs ++ [EvDispose]) ->
+  let ops := run c (evs ++ [EvDispose]) in
+  created_from [] ops <> [] ->
+  exists T segs, fs_lookup PRec (apply_all [] ops) = Some (mkfile (print_record (c_stream c) (mkpl T 0 segs true)) true)
+                 /\ map seg_key segs = created_from [] ops.
+Proof. exact final_record. Qed.
+Print Assumptions c10_final_record.
 
 (* Re-publishing over the directory of the previous publication (no cleanup in between, e.g. cleanup mode 0):
    the media sequence goes from 2 back to 0.  Known finding C10-republish-media-sequence-restarts. *)
